@@ -67,6 +67,8 @@ type SeededPrefix struct {
 	// serial mode: the worker's reference re-verification slice (w % verify of verify)
 	Worker int `json:"worker,omitempty"`
 	Verify int `json:"verify,omitempty"`
+	// the coverage-grown inputs that were part of the pool
+	Extra []grownInput `json:"extra_inputs,omitempty"`
 }
 
 // refsViaChildren computes the whole reference table of the installed pool in fresh child
